@@ -29,6 +29,15 @@ def _pkmod(threshold):
     return mod if n else None
 
 
+_PKMODS = {}
+
+
+def _pkmod_cached(threshold):
+    if threshold not in _PKMODS:
+        _PKMODS[threshold] = _pkmod(threshold)
+    return _PKMODS[threshold]
+
+
 def _make_gen(entry, pkmod, src, r, k):
     if entry == "ccsds":
         return pkmod.ccsds_generator(src, buffer_read_size_bytes=r, skip_header_bytes=k)
@@ -257,21 +266,29 @@ def _long_sized_task(task):
             expected = [pal[i] for i in seq]
             for k in task["ks"]:
                 stream = framing.build_stream(expected, k)
-                for entry in ("ccsds", "pg"):
+                for entry, thr in (("ccsds", None), ("pg", None), ("ccsds", 0), ("ccsds", 5), ("ccsds", 17), ("ccsds", 40)):
+                    # with the buffer-trim literal rewritten (0, 5, 17, 40 bytes) these streams cross the threshold many times over
+                    if thr is not None and k not in (0, 3):
+                        continue
+                    pkmod = _pkmod_cached(thr)
+                    if pkmod is None:
+                        continue
                     for kind, r in (("bytes", None), ("bytesio", None), ("bytesio", 1), ("bytesio", 5), ("bytesio", 64), ("bytesio", len(stream))):
                         if entry == "pg" and r not in (None, 5):
                             continue
+                        if thr is not None and r in (64, len(stream)):
+                            continue
                         try:
                             with case_alarm(20):
-                                bad = _sized_run(entry, real, stream if kind == "bytes" else CountingBytesIO(stream), r, k, expected)
+                                bad = _sized_run(entry, pkmod, stream if kind == "bytes" else CountingBytesIO(stream), r, k, expected)
                         except CaseTimeout:
                             bad = {"end": "timeout"}
                         t.evals += 1
                         t.traces += 1
                         t.outcomes["long-sized:" + ("ok" if bad is None else "mismatch")] += 1
                         if bad:
-                            t.violation({"kind": "framing-mismatch", "source": kind, "long": True},
-                                        {"seq": list(seq), "k": k, "entry": entry, "threshold": None, "source": kind, "r": r},
+                            t.violation({"kind": "framing-mismatch", "source": kind, "long": True, "threshold": thr},
+                                        {"seq": list(seq), "k": k, "entry": entry, "threshold": thr, "source": kind, "r": r},
                                         expected=len(expected), observed=bad, note="a longer stream is framed differently from a sized source")
                 # compressed files on disk (gzip.open / bz2.open / lzma.open objects are io.BufferedIOBase; their file descriptor and on-disk size
                 # belong to the COMPRESSED file, the stream the framer must frame is the decompressed one)
@@ -460,7 +477,7 @@ def run(ctx):
                   "scripted socket with read sizes {None,1,2,3,5,6,7,8,L} x EVERY fragmentation (state-hashed DFS); "
                   "both entry points; trim literal rewritten to {0,5,17} and reached for real with a 21 MB stream; "
                   "max-size packet; stateless cross-check of the state merging on short streams; sized sources (bytes, BytesIO with 5 read sizes) additionally on "
-                  "every 4-packet sequence and on homogeneous/alternating sequences of 5..12 packets with prefix lengths 0,1,2,3,4,7; "
+                  "every 4-packet sequence and on homogeneous/alternating sequences of 5..12 packets with prefix lengths 0,1,2,3,4,7, also with the trim literal rewritten to {0,5,17,40} so that the buffer is trimmed many times in one stream; "
                   "io.BytesIO vs real file handed over at positions {1, 6, k+7, L} (4-packet sequences, differential); gzip / bz2 / lzma files on disk for the "
                   "sequences of >= 8 packets (compressed size smaller than the stream)"),
         "rule": ("a case is one (packet sequence, prefix length) pair explored under every source configuration; "
